@@ -408,7 +408,7 @@ func (e *env) runStorm(name string, rng *rand.Rand, nconn, workersPerConn, burst
 	}
 	var freshMu sync.Mutex
 	fresh := func() uint32 { freshMu.Lock(); defer freshMu.Unlock(); return e.freshID() }
-	var total, errs, coll int64
+	var total, errs, coll, maxMs int64
 	var pmu sync.Mutex
 	pending := []*rq{}
 	var wg sync.WaitGroup
@@ -464,9 +464,14 @@ func (e *env) runStorm(name string, rng *rand.Rand, nconn, workersPerConn, burst
 						}
 						qs = append(qs, q)
 					}
+					t0 := time.Now()
 					for _, q := range qs {
 						atomic.AddInt64(&total, 1)
-						if !q.wait(e.w(100 * time.Millisecond)) {
+						ok := q.wait(e.w(100 * time.Millisecond))
+						if ms := time.Since(t0).Milliseconds(); ms > atomic.LoadInt64(&maxMs) {
+							atomic.StoreInt64(&maxMs, ms)
+						}
+						if !ok {
 							pmu.Lock()
 							pending = append(pending, q)
 							pmu.Unlock()
@@ -498,7 +503,7 @@ func (e *env) runStorm(name string, rng *rand.Rand, nconn, workersPerConn, burst
 	for _, cl := range conns {
 		cl.Close()
 	}
-	return map[string]interface{}{"name": name, "requests": total, "errors": errs, "collisions": coll, "closed": closed}
+	return map[string]interface{}{"name": name, "requests": total, "errors": errs, "collisions": coll, "closed": closed, "slowest_burst_ms": maxMs, "unanswered_before_settle": len(pending)}
 }
 
 func startMosn(tmp string, up *xc02.Up) string {
@@ -521,6 +526,7 @@ func main() {
 	shard := flag.Int("shard", 0, "shard index")
 	shards := flag.Int("shards", 1, "number of shards")
 	rounds := flag.Int("rounds", 10, "storm rounds")
+	alwaysClose := flag.Bool("close", false, "storm: close the upstream connection in every round")
 	flag.Parse()
 	if !vh.HooksCompiled() {
 		vh.Must(fmt.Errorf("built without -tags verif"), "hooks")
@@ -584,7 +590,7 @@ func main() {
 		rng := rand.New(rand.NewSource(vh.Seed()*1000 + int64(*shard)))
 		for i := 0; i < *rounds && atomic.LoadInt64(&lost) <= maxLost; i++ {
 			n++
-			rs.Put(e.runStorm(fmt.Sprintf("s%d.%d", *shard, i), rng, 1+rng.Intn(3), 1+rng.Intn(3), 4+rng.Intn(6), rng.Intn(4) == 0))
+			rs.Put(e.runStorm(fmt.Sprintf("s%d.%d", *shard, i), rng, 1+rng.Intn(3), 1+rng.Intn(3), 4+rng.Intn(6), rng.Intn(4) == 0 || *alwaysClose))
 		}
 	}
 	rs.Put(map[string]interface{}{"summary": true, "runs": n, "skipped": skipped, "lost": atomic.LoadInt64(&lost)})
